@@ -98,3 +98,28 @@ Example C03_nonvacuous :
   = Ok [[VA (AStr [97%N]); VA (AFlt (7 # 1))]; [VA (AStr [107%N]); VA (AFlt (5 # 2))]].
 Proof. vm_compute. reflexivity. Qed.
 Print Assumptions C03_nonvacuous.
+
+(* lower-case min / max / sum: with several arguments, or one iterable, the Python builtin; with a single string or
+   number (or anything else the builtin rejects with TypeError) the aggregate *)
+From RBQL Require Import Mad.
+Theorem C03_mad_dispatch :
+  (forall a b rest kw, mad_minmax (a :: b :: rest) kw = Builtin)
+  /\ mad_minmax [KindList true] false = Builtin
+  /\ mad_minmax [KindStr] false = Aggregate /\ mad_minmax [KindNum] false = Aggregate
+  /\ (forall a b, mad_sum [a; b] = Builtin) /\ (forall ne, mad_sum [KindList ne] = Builtin)
+  /\ mad_sum [KindStr] = Aggregate /\ mad_sum [KindNum] = Aggregate.
+Proof.
+  split; [intros a b rest kw; destruct a as [| |[|]|]; destruct kw; reflexivity|].
+  repeat split; try reflexivity; intros a b; destruct a as [| |[|]|]; reflexivity.
+Qed.
+Print Assumptions C03_mad_dispatch.
+
+(* the builtin forms of the fragment: first maximal / minimal element, arithmetic sum *)
+Example C03_builtin_forms :
+  builtin_minmax true [AStr [98%N]; AStr [97%N]; AStr [98%N]] = Ok (VA (AStr [98%N]))
+  /\ builtin_minmax false [AInt 3; AInt 1; AInt 2] = Ok (VA (AInt 1))
+  /\ builtin_sum (AInt 0) [AInt 3; AInt 4] = Ok (VA (AInt 7))
+  /\ builtin_minmax true [] = Err XValue
+  /\ builtin_minmax true [AStr [97%N]; AInt 1] = Err XType.
+Proof. repeat split. Qed.
+Print Assumptions C03_builtin_forms.
